@@ -17,7 +17,7 @@ from mzverif.core import Sub, call, require
 
 ID = "C06"
 LEVEL = "exploration"
-TECHNIQUE = "per-region exhaustive enumeration (9 coordinate x 216 adjacency and 9 x 1008 path configurations) on a pool of mazes + pairwise-covering and uniformly sampled full configurations; oracle = independent token-stream decoder configured only from the parameter tuple"
+TECHNIQUE = "per-region exhaustive enumeration (9 coordinate x 216 adjacency and 9 x 1008 path configurations) on a pool of mazes (incl. corridors whose fork-to-fork steps span 130..255 moves) + pairwise-covering and uniformly sampled full configurations; oracle = independent token-stream decoder configured only from the parameter tuple"
 RULE = (
     "case = (tokenizer parameter dict, maze = bits + solution + kind). The harness builds the tokenizer from the parameters; the "
     "decoder checks delimiters, vocabulary membership, the adjacency multiset (subset x orientation x connection/wall flag), origin, "
